@@ -305,7 +305,10 @@ class C07(F.Spec):
                     ch, d, v = pl[9], int.from_bytes(pl[10:14], "little"), pl[14]
                 v = 1 if v else 0
                 if stair.get(ch, 0) > 0:
-                    d = stair[ch] if v == 1 else 0      # the configured staircase time, not the command's
+                    # the configured staircase time, not the command's - except that a duration equal to the remaining time the
+                    # device holds for the channel (supla_esp_state.Time2Left, the value it re-arms with at start-up) is taken as
+                    # it is: supla_esp_gpio_relay_set_duration_timer compares exactly these two
+                    d = (d if d > 0 and pub.get(ch, 0) == d else stair[ch]) if v == 1 else 0
                 cmds.append((now, ch, v, d))
                 if d > 0 and ch < nrel and (v == 1 or cflags.get(ch, 0x01000000) & 0x01000000):
                     active[ch] = (now, d, v)
